@@ -1,6 +1,7 @@
 package checks
 
 import (
+	"runtime"
 	"context"
 	"errors"
 	"fmt"
@@ -36,7 +37,7 @@ func init() {
 		},
 		MinDistinct: map[string]int{"quick": 800, "thorough": 60000},
 		MinCounters: map[string]map[string]int64{
-			"quick":    {"walks_judged": 300, "enable_calls_judged": 400, "global_deliveries_compared": 800, "withheld_states_observed": 100, "linearizable_histories": 40, "ez_episodes_judged": 60, "ez_installs_observed": 40, "ez_callback_goroutine_exits_observed": 60, "enable_calls_abandoned_inside_verify": 30},
+			"quick":    {"walks_judged": 300, "enable_calls_judged": 400, "global_deliveries_compared": 800, "withheld_states_observed": 100, "linearizable_histories": 40, "ez_episodes_judged": 60, "ez_installs_observed": 40, "ez_callback_goroutine_exits_observed": 60, "enable_calls_abandoned_inside_verify": 30, "enable_calls_with_a_report_waiting_behind_them": 25},
 			"thorough": {"walks_judged": 200000, "enable_calls_judged": 300000, "ez_episodes_judged": 10000, "ez_installs_observed": 5000},
 		},
 		Plan: func(tier string) fw.Plan {
@@ -73,6 +74,8 @@ func runC09(w *fw.Worker) {
 			c09AfterMonitorExit(w, i, r)
 		case g%19 == 7:
 			c09AbandonedEnable(w, i, r)
+		case g%23 == 9:
+			c09EnableReturnsWhatItVerified(w, i, r)
 		default:
 			c09Walk(w, i, r, g)
 		}
@@ -1144,4 +1147,92 @@ func c09AbandonedEnable(w *fw.Worker, i int, r *fw.Rand) {
 		return
 	}
 	w.Distinct(fmt.Sprintf("abandoned-enable|%d|%v", o.NSrc, o.Suppress))
+}
+
+// c09EnableReturnsWhatItVerified: "EnableVerification verifies exactly the installed config and on success returns
+// that config and its serial". While the monitor is inside Verify for an EnableVerification request, another source's
+// blocking report is already waiting at the monitor's door; with one processor the monitor answers the request and goes
+// straight on to install that report before the caller gets to run. The caller must still come back with the config
+// Verify was given (and its serial) - not with whatever is installed by the time it looks.
+func c09EnableReturnsWhatItVerified(w *fw.Worker, i int, r *fw.Rand) {
+	o := conc.Opts{Delay: true, Suppress: r.Bool(), NSrc: r.Range(2, 3)}
+	e, err := conc.StartWith(context.Background(), r.U64(), o, func(e *conc.Env, k int) *conc.Layer { return e.RandLayer(r, 0, 0) }, nil)
+	desc := map[string]any{"mode": "enable-answered-then-overtaken-by-an-update", "opts": fmt.Sprintf("%+v", o)}
+	w.BeginDesc(i, fmt.Sprintf("%v", desc))
+	if err != nil {
+		w.Violation(i, "config-failed-with-verification-delayed", err.Error(), desc)
+		return
+	}
+	defer e.Stop()
+	ctx := e.S.Ctx
+	reached, release := make(chan struct{}), make(chan struct{})
+	var verified atomic.Pointer[conc.Cfg]
+	var armed atomic.Bool
+	armed.Store(true)
+	e.S.SetOnVerify(func(c *conc.Cfg) {
+		if armed.CompareAndSwap(true, false) {
+			verified.Store(c)
+			close(reached)
+			<-release
+		}
+	})
+	defer e.S.SetOnVerify(nil)
+	_, tok0 := e.D.ViewVersion()
+	type eres struct {
+		cfg *conc.Cfg
+		ser uint64
+		err error
+	}
+	ech := make(chan eres, 1)
+	go func() {
+		c, t, eerr := e.D.EnableVerification(ctx)
+		ech <- eres{c, conc.SerialOf(t), eerr}
+	}()
+	select {
+	case <-reached:
+	case <-time.After(10 * time.Second):
+		close(release)
+		w.Inconclusive(i, "Verify was not reached for the EnableVerification request")
+		return
+	}
+	// another source's blocking report, waiting for the monitor to take it
+	src := r.Intn(o.NSrc)
+	rch := make(chan int, 1)
+	go func() { res, _ := e.Report(ctx, 1, src, e.RandLayer(r, 0, 0), true); rch <- res }()
+	waiting := false
+	for k := 0; k < 400 && !waiting; k++ {
+		for _, g := range dialsGoroutines([]string{"BlockingReportNewValue"}) {
+			if strings.Contains(strings.SplitN(g, "\n", 2)[0], "[select") {
+				waiting = true
+			}
+		}
+		if !waiting {
+			time.Sleep(5 * time.Millisecond)
+		}
+	}
+	prev := runtime.GOMAXPROCS(1)
+	close(release)
+	var er eres
+	select {
+	case er = <-ech:
+	case <-time.After(20 * time.Second):
+		runtime.GOMAXPROCS(prev)
+		w.Inconclusive(i, "EnableVerification did not return within 20s")
+		return
+	}
+	<-rch
+	runtime.GOMAXPROCS(prev)
+	if !waiting {
+		w.Count("enable_overtake_report_not_seen_waiting", 1)
+	}
+	w.Count("enable_calls_with_a_report_waiting_behind_them", 1)
+	if er.err != nil {
+		w.Violation(i, "enable-failed-on-valid-config:report-waiting-behind-it", er.err.Error(), desc)
+		return
+	}
+	if v := verified.Load(); er.cfg != v || er.ser != conc.SerialOf(tok0) {
+		w.Violation(i, "enable-returned-a-config-other-than-the-one-it-verified", fmt.Sprintf("Verify was given config %p %+v (serial %d, the installed one when the request was handled); EnableVerification returned %p %+v with serial %d; installed now: serial %d", v, conc.FPOf(v), conc.SerialOf(tok0), er.cfg, conc.FPOf(er.cfg), er.ser, func() uint64 { _, t := e.D.ViewVersion(); return conc.SerialOf(t) }()), desc)
+		return
+	}
+	w.Distinct(fmt.Sprintf("enable-overtaken|%d|%v|%v", o.NSrc, o.Suppress, waiting))
 }
